@@ -245,7 +245,8 @@ class DictField(Field):
         if default is not None:
             # every configuration gets its own copy of the default, nested containers included
             default = copy.deepcopy(default)
-        if isinstance(default, dict) and self._use_proxy:
+        if default is not None and self._use_proxy:
+            # a default given as a dict or as a list of pairs: a validated dict like any other value
             default = DictProxy(cfg, self, default)
         elif default is not None:
             default = dict(default)
